@@ -309,6 +309,17 @@ class ObjMachine(Machine):
             b = next(iter(bad))
             self._fail("C16.aliasing", f"{cname} {op['how']}: copy and source share mutable state "
                                        f"at source{gx[b]} / copy{gc[b]}", cls=cname)
+        # two rebuilds of one source must not share state with each other either
+        try:
+            c2 = x.copy() if op["how"] == "data" else cls(**x.data())
+            g2 = walk_mutable(c2)
+            bad2 = (set(gc) & set(g2)) - allowed
+            if bad2:
+                b = next(iter(bad2))
+                self._fail("C16.aliasing", f"{cname}: two rebuilds of one source share mutable "
+                                           f"state at {gc[b]}", cls=cname, between="copies")
+        except DOCUMENTED:
+            pass
         self.probes["pairs_walked"] += 1
         if shared:
             self.probes["shared_note_objects"] += 1
